@@ -1,6 +1,7 @@
 // C09 correspondence harness: match patterns on the real library.
 //
 // Request lines (same file is fed to the Lean driver xm_c09, which ignores the fields meant for this side):
+//   xdoc …  like doc, but the document is parsed into a Xerces DOM and wrapped (XercesParserLiaison): another tree kind
 //   doc <hex-utf8 xml> <flat node table ...>
 //       parse the document with the XalanSourceTree parser, number every node in document order
 //       (root 0; element, its attributes in map order, its children), reply
@@ -46,6 +47,9 @@
 #include <xalanc/XalanSourceTree/XalanSourceTreeDOMSupport.hpp>
 #include <xalanc/XalanSourceTree/XalanSourceTreeParserLiaison.hpp>
 #include <xalanc/XalanSourceTree/XalanSourceTreeInit.hpp>
+#include <xalanc/XercesParserLiaison/XercesParserLiaison.hpp>
+#include <xalanc/XercesParserLiaison/XercesDOMSupport.hpp>
+#include <xalanc/DOMSupport/DOMSupport.hpp>
 #include <xalanc/XPath/XPathInit.hpp>
 
 #include <iostream>
@@ -76,15 +80,37 @@ static std::string narrow(const XalanDOMString& s)
 
 struct DocState
 {
-    XalanSourceTreeDOMSupport                       domSupport;
+    XalanSourceTreeDOMSupport                       stDomSupport;
     std::unique_ptr<XalanSourceTreeParserLiaison>   liaison;
+    // "xdoc": the same document held as a Xerces DOM behind the XercesDocumentWrapper (another kind of source tree)
+    std::unique_ptr<XercesParserLiaison>            xliaison;
+    std::unique_ptr<XercesDOMSupport>               xDomSupport;
+    DOMSupport*                                     domSupportPtr = nullptr;
     XalanDocument*                                  doc = nullptr;
     std::vector<XalanNode*>                         nodes;
     std::vector<int>                                parent;
     std::map<const XalanNode*, int>                 index;
     std::string                                     xml;
 
-    DocState() { liaison.reset(new XalanSourceTreeParserLiaison(domSupport)); domSupport.setParserLiaison(liaison.get()); }
+    explicit DocState(bool xerces)
+    {
+        if (xerces)
+        {
+            xliaison.reset(new XercesParserLiaison);
+            xDomSupport.reset(new XercesDOMSupport(*xliaison));
+            domSupportPtr = xDomSupport.get();
+        }
+        else
+        {
+            liaison.reset(new XalanSourceTreeParserLiaison(stDomSupport));
+            stDomSupport.setParserLiaison(liaison.get());
+            domSupportPtr = &stDomSupport;
+        }
+    }
+    XalanDocument* parse(xercesc::MemBufInputSource& src)
+    {
+        return xliaison ? xliaison->parseXMLStream(src) : liaison->parseXMLStream(src);
+    }
 };
 
 // expanded name: "local" in no namespace, "{uri}local" otherwise
@@ -193,14 +219,14 @@ int main()
             std::istringstream in(line);
             std::string cmd, hex;
             in >> cmd >> hex;
-            if (cmd == "doc")
+            if (cmd == "doc" || cmd == "xdoc")
             {
-                d.reset(new DocState);
+                d.reset(new DocState(cmd == "xdoc"));
                 d->xml = unhex(hex);
                 try
                 {
                     xercesc::MemBufInputSource src((const XMLByte*)d->xml.data(), d->xml.size(), "c09", false);
-                    d->doc = d->liaison->parseXMLStream(src);
+                    d->doc = d->parse(src);
                     std::ostringstream o;
                     number(*d, d->doc, 0, o);
                     std::cout << "doc " << d->nodes.size() << o.str() << "\n";
@@ -222,11 +248,11 @@ int main()
                 {
                     XPathEnvSupportDefault          env;
                     XObjectFactoryDefault           xof;
-                    XPathExecutionContextDefault    ec(env, d->domSupport, xof);
+                    XPathExecutionContextDefault    ec(env, *d->domSupportPtr, xof);
                     XPathConstructionContextDefault cc;
                     XPathFactoryDefault             xf;
                     XPathProcessorImpl              proc;
-                    const ElementPrefixResolverProxy resolver(d->doc->getDocumentElement(), env, d->domSupport);
+                    const ElementPrefixResolverProxy resolver(d->doc->getDocumentElement(), env, *d->domSupportPtr);
 
                     XPath* const pat = xf.create();
                     XPath* const expr = xf.create();
